@@ -665,6 +665,28 @@ def op_col(case, o):
     return proj_any(r)
 
 
+def op_pairs(case, o):
+    """ra[rows, cols] with two equally long integer sequences (lists or ndarrays): read or write; the caller's index arrays must not change"""
+    op, arr, rows, cols = case[0], case[1], case[2], case[3]
+    a = build(arr, o.get("via", "flat"))
+    asarr = o.get("listkind", "list") == "array"
+    R = np.array([int(x) for x in rows], dtype=np.int64) if asarr else [int(x) for x in rows]
+    C = np.array([int(x) for x in cols], dtype=np.int64) if asarr else [int(x) for x in cols]
+    keep = (list(R), list(C)) if not asarr else (R.copy(), C.copy())
+    if op == "getpairs":
+        snap = snapshot(a)
+        r = a[R, C]
+        out = proj_any(r, o.get("wide", False))
+        if not same_snap(snap, snapshot(a)):
+            return ["mutated", "indexing changed the indexed array"]
+    else:
+        a[R, C] = py_value(case[4], arr[0], o)
+        out = proj_ragged(a, o.get("wide", False), "array")
+    if (asarr and not (np.array_equal(R, keep[0]) and np.array_equal(C, keep[1]))) or (not asarr and (R, C) != keep):
+        return ["mutated", "the caller's index sequences were changed"]
+    return out
+
+
 def op_wreduce(case, o):
     name, arr = case[1], case[2]
     a = build(arr, o.get("via", "flat"))
@@ -690,7 +712,7 @@ def op_wreduce(case, o):
     return out if same_snap(snap, snapshot(a)) else ["mutated", "operand changed"]
 
 
-OPS = {"wreduce": op_wreduce, "readback": op_readback, "getitem": op_getitem, "setitem": op_setitem, "ufunc": op_ufunc, "reduce": op_reduce,
+OPS = {"wreduce": op_wreduce, "getpairs": op_pairs, "setpairs": op_pairs, "readback": op_readback, "getitem": op_getitem, "setitem": op_setitem, "ufunc": op_ufunc, "reduce": op_reduce,
        "scan": op_scan, "concat": op_concat, "like": op_like, "pad": op_pad, "nonzero": op_nonzero, "where": op_where,
        "subset": op_subset, "ragged_slice": op_ragged_slice, "col": op_col}
 
